@@ -1446,7 +1446,10 @@ func (c ipamClient) assignFromExistingBlock(ctx context.Context, config *IPAMCon
 	// Increment handle count.
 	if handleID != nil {
 		logCtx.Debug("Incrementing handle")
-		err := c.incrementHandle(ctx, *handleID, blockCIDR, num, maxAlloc)
+		// Count the addresses this block actually gave us (len(ips)), not the number still wanted
+		// (num): a nearly full or partly reserved block can give fewer, and release only ever
+		// decrements by the number released, so the surplus would never go away.
+		err := c.incrementHandle(ctx, *handleID, blockCIDR, len(ips), maxAlloc)
 		if err != nil {
 			// If incrementHandle fails due to maxAlloc constraint, return the error so caller can handle it.
 			// The IPs allocated in the block's memory structure won't be persisted since
@@ -1467,7 +1470,7 @@ func (c ipamClient) assignFromExistingBlock(ctx context.Context, config *IPAMCon
 			logCtx.Debug("Decrementing handle since we failed to allocate IP(s)")
 			// Extend timeout for the cleanup, if needed.
 			cleanupCtx, cancel := contextForCleanup(ctx)
-			if err := c.decrementHandle(cleanupCtx, *handleID, blockCIDR, num, nil); err != nil {
+			if err := c.decrementHandle(cleanupCtx, *handleID, blockCIDR, len(ips), nil); err != nil {
 				logCtx.WithError(err).Warnf("Failed to decrement handle")
 			}
 			cancel()
